@@ -359,6 +359,13 @@ pub fn oracle_c08(ex: &Exec, acc: &mut Acc) -> Verdict {
                     ),
                 };
             }
+            if !a.multiline_markup && b.multiline_markup {
+                // strong/emph is markup, not embedded code: nothing can force a break inside it
+                return Verdict::Violated {
+                    oracle: "prose-one-line",
+                    detail: format!("markup node {} line {} ({:?}): a strong/emph element that was on one source line now spans several lines (a blank of its body became a line break)", mi, li, util::clip(&a.text, 60)),
+                };
+            }
             if a.has_text && !a.multiline_src && b.multiline_src {
                 // Breaks that even an unlimited width cannot avoid (a code block with several statements, a line
                 // comment, …) are not rewrapping: the narrow layout may not fold the line where the unlimited one does not.
